@@ -168,6 +168,7 @@ func main() {
 		if a.N == 0 {
 			next = genFrames(r, w, next, a.Tier)
 			next = genProto(r, w, next, a.Tier)
+			next = genPayload(r, w, next, a.Tier)
 		}
 		_ = next
 		w.Close()
@@ -219,6 +220,8 @@ func main() {
 				st.Count(fmt.Sprintf("entry.fixed=%d", fixed))
 				st.Count(fmt.Sprintf("entry.cmdlen<=%d", bucket(len(e.Cmd))))
 				st.Case(line[len(id):], fixed > 0 && varint > 0, line)
+			case "PAY", "PAYDEC":
+				runPayload(id, f[1:], line, obs, st)
 			case "PB", "PBDEC", "UPD", "UPDDEC":
 				runProto(id, f[1:], line, obs, st)
 			case "HDR", "HDRDEC", "WRITE", "FRAME":
